@@ -209,6 +209,18 @@ func defaultModels() map[consts.JT808CommandType]func() service.JT808Handler {
 		consts.T1210AlarmAttachInfoMessage:       func() service.JT808Handler { return &model.T0x1210{} },
 		consts.T1211FileInfoUpload:               func() service.JT808Handler { return &model.T0x1211{} },
 		consts.T1212FileUploadComplete:           func() service.JT808Handler { return &model.T0x1212{} },
+		// platform-originated IDs the server also registers by default (a terminal may send them)
+		consts.P8003ReissueSubcontractingRequest:      func() service.JT808Handler { return &model.P0x8003{} },
+		consts.P8103SetTerminalParams:                 func() service.JT808Handler { return &model.P0x8103{} },
+		consts.P8104QueryTerminalParams:               func() service.JT808Handler { return &model.P0x8104{} },
+		consts.P8801CameraShootImmediateCommand:       func() service.JT808Handler { return &model.P0x8801{} },
+		consts.P9003QueryTerminalAudioVideoProperties: func() service.JT808Handler { return &model.P0x9003{} },
+		consts.P9101RealTimeAudioVideoRequest:         func() service.JT808Handler { return &model.P0x9101{} },
+		consts.P9102AudioVideoControl:                 func() service.JT808Handler { return &model.P0x9102{} },
+		consts.P9205QueryResourceList:                 func() service.JT808Handler { return &model.P0x9205{} },
+		consts.P9206FileUploadInstructions:            func() service.JT808Handler { return &model.P0x9206{} },
+		consts.P9207FileUploadControl:                 func() service.JT808Handler { return &model.P0x9207{} },
+		consts.P9208AlarmAttachUpload:                 func() service.JT808Handler { return &model.P0x9208{} },
 	}
 }
 
